@@ -569,7 +569,8 @@ func (w *widths) add(key pr.String, value pr.Float) {
 	case "right":
 		w.right += value
 	default:
-		panic("unexpected key " + key)
+		// not a side : for instance float: footnote on a pseudo-element,
+		// which is not moved to the footnote area
 	}
 }
 
